@@ -21,7 +21,7 @@ for pid in sorted(CHECKS):
         "evidence_file": "/verif/evidence/%s.json" % pid,
         "replay_cmd_template": "bin/vcheck replay {path}",
         "engine": "symgo",
-        "level_claimed": {"category": "model_checking", "text": t["level"], "design_ref": t.get("ref", "DESIGN.md section 5 (%s)" % pid)},
+        "level_claimed": {"category": "model_checking", "text": t["level"], "design_ref": t.get("ref", "DESIGN.md sections 5 (%s: plan), 12.3-12.4 (as built) and 13 (seeded changes)" % pid)},
         "level_note": t["note"],
         "technique": "bounded symbolic execution of the real go/ssa code, every branch / panic condition / assertion discharged by an SMT solver (z3 5.1; cvc5 for the floating-point lemmas): " + spec.get("technique", ""),
     })
